@@ -1,7 +1,9 @@
 (* Leaf/ObsSpecs8.v — mzd_find_pivot (m4ri/mzd.c:1686) as translated into Leaf/Gen_observers.v, part 3:
    composition with the refinement theorem of Word/WRefine12.v, satisfiability of the hypotheses, one concrete run
    on a windowed matrix with foreign bits in the padding, and the overflow of `j += m4ri_radix`.
-   PARTIAL: only the path for fewer than 64 remaining columns is proven (Leaf/ObsSpecs7.v). *)
+   The theorems of this file are the ones for fewer than 64 remaining columns (Leaf/ObsSpecs7.v), kept under their
+   `_partial` names; the FULL theorems [obs_find_pivot_w], [mzd_find_pivot_spec] are in Leaf/ObsSpecs13.v
+   (other branch: Leaf/ObsSpecs11.v, ObsSpecs12.v, ObsSpecs13.v). *)
 From Coq Require Import ZArith NArith List String Bool Lia ZifyBool ZifyNat ZifyN.
 From M4 Require Import Base.Bits Lin.Mat Lin.Ops Word.WMat Word.WMatLemmas Word.WOps Word.WRefine12
   Leaf.CMini Leaf.CMiniAcc Leaf.CMiniAcc2 Leaf.CMiniObs Leaf.AccessSpecs Leaf.Gen_observers Leaf.ObsSpecs
@@ -13,21 +15,8 @@ Ltac Zify.zify_post_hook ::= Z.div_mod_to_equations.
 (** [obs_find_pivot_w_partial] = Leaf/ObsSpecs7.v [obs_find_pivot_w_narrow] under the name announced for the
     restricted statement.
 
-    FULL STATEMENTS (not proven here; the missing part is the branch `A->ncols - start_col >= m4ri_radix`,
-    mzd.c:1713-1790: first word under mask_begin, complete words, last word under mask_end):
-      Theorem obs_find_pivot_w h fl mem r0 c0 res :
-        valid h mem -> c_dom h fl mem -> (r0 <= h_nrows h)%nat -> (c0 < h_ncols h)%nat ->
-        ((h_ncols h - c0 < 64)%nat -> Z.of_nat c0 + 64 <= 2147483647) ->
-        w_find_pivot h r0 c0 mem = WMat.Ok res ->
-        run zops obs_prog LFUEL DEPTH "mzd_find_pivot" (pivot_args h fl r0 c0) (mem2 (words mem) 2 TLeaf) =
-        Ok (Some (Vint (match res with Some _ => 1 | None => 0 end)), mem2 (words mem) 2 (pivot_cells res)).
-      Theorem mzd_find_pivot_spec : the same with res := find_pivot (abs h mem) r0 c0 and without the w_find_pivot
-        hypothesis.
-    The partial theorems below are these statements with the additional hypothesis (h_ncols h - c0 < 64)%nat.
-    [find_pivot_run_example] evaluates the translated function through the missing branch on one windowed matrix.
-    The tools for the missing branch are in Leaf/ObsSpecs6.v ([scanG] with a break bit, [scanG_inv], [fsb_iterG],
-    [first_set_bit_some], [get_bit_tb], [loop_gen2], [over]); the proof of the narrow path in Leaf/ObsSpecs7.v is
-    the pattern (row scan, test of `data`, store of *r, bit search with the store of *c in the exit). *)
+    The full statements (without the hypothesis (h_ncols h - c0 < 64)%nat; the bound on start_col + 64 only under
+    that condition) are [obs_find_pivot_w] and [mzd_find_pivot_spec] in Leaf/ObsSpecs13.v. *)
 Theorem obs_find_pivot_w_partial h fl mem r0 c0 res :
   valid h mem -> c_dom h fl mem -> (r0 <= h_nrows h)%nat -> (c0 < h_ncols h)%nat ->
   (h_ncols h - c0 < 64)%nat -> Z.of_nat c0 + 64 <= 2147483647 ->
@@ -90,7 +79,7 @@ Example find_pivot_overflow :
   UB "signed overflow".
 Proof. vm_compute. reflexivity. Qed.
 
-(** * Towards the branch for at least 64 remaining columns (NOT finished)
+(** * For the branch for at least 64 remaining columns (Leaf/ObsSpecs13.v)
     [mask_begin_Z]: the value of `__M4RI_RIGHT_BITMASK(m4ri_radix - bit_offset)` as the C text computes it. *)
 Lemma mask_begin_Z bo : (bo < 64)%nat ->
   Z.shiftl ((-1) mod M64) (64 - (64 - Z.of_nat bo)) mod M64 = Z.of_N (right_bitmask (64 - bo)).
@@ -98,94 +87,5 @@ Proof.
   intros H. unfold right_bitmask. rewrite of_N_shl. change (Z.of_N ffff) with ((-1) mod M64). do 2 f_equal. lia.
 Qed.
 
-
-(* PROOF SCRIPT IN PROGRESS for the missing branch (checked up to the marked point with the files of this directory:
-   entry, bit_offset / word_offset / mask_begin, the row scan of the first word with its `break`, the test of `data`
-   and the store of *r all go through, 66 s).  What remains follows the same pattern: the bit search of the first
-   word, the loop over the complete words (outer [loop_gen2] over wi with St = unit and G from
-   [CMiniObs.iterG_firstM]; inside, [scanG (fun i => rd mem (row_addr h i + wi)) (Some 0) r0] from state (0, cand) -
-   [scanG_inv] gives "data = 0 -> candidate unchanged", which re-establishes the outer loop state - and the bit
-   search over 64 bits), and the last word under mask_end ([first_set_bit_some] needs the bits >= end_offset of the
-   masked word to be zero: [testbit_left_bitmask]).
-
-Theorem obs_find_pivot_w_wide h fl mem r0 c0 res :
-  valid h mem -> c_dom h fl mem -> (r0 <= h_nrows h)%nat -> (c0 < h_ncols h)%nat ->
-  (64 <= h_ncols h - c0)%nat ->
-  w_find_pivot h r0 c0 mem = WMat.Ok res ->
-  run zops obs_prog LFUEL DEPTH "mzd_find_pivot" (pivot_args h fl r0 c0) (mem2 (words mem) 2 TLeaf) =
-  Ok (Some (Vint (match res with Some _ => 1 | None => 0 end)), mem2 (words mem) 2 (pivot_cells res)).
-Proof.
-  intros Hv Hd Hr0 Hc0 Hwide Hw.
-  pose proof (valid_hdr_ok _ _ Hv) as Hok. pose proof (valid_mem_ok _ _ Hv) as Hm.
-  pose proof Hd as (D1 & D2 & D3 & D4 & D5 & D6). pose proof Hok as (HW & _).
-  unfold w_find_pivot in Hw. cbv zeta in Hw.
-  destruct (Nat.ltb_spec (h_ncols h - c0) 64) as [?|_]; [lia|].
-  set (bo := (c0 mod 64)%nat) in *. set (wo := (c0 / 64)%nat) in *.
-  assert (HwoW : (wo < h_width h)%nat) by (subst wo; rewrite HW; lia).
-  assert (Hbo : (bo < 64)%nat) by (subst bo; lia).
-  destruct (bind_inv _ _ _ Hw) as ([data cand] & Hscan & Hres). clear Hw.
-  unfold pivot_args, hbundle. change DEPTH with (S (S (S (S 8)))).
-  co_enter "mzd_find_pivot"%string f_mzd_find_pivot.
-  match goal with |- context [exec zops ?cl ?lf ?s ?E0 ?M0] => rewrite <- (over_leaf E0) end.
-  cm_run2. cm_release. cm_clear.
-  replace (Z.of_nat c0 mod 64) with (Z.of_nat bo) by (subst bo; lia).
-  replace (Z.of_nat c0 / 64) with (Z.of_nat wo) by (subst wo; lia).
-  rewrite mask_begin_Z by assumption.
-  set (rows := seq r0 (h_nrows h - r0)) in *.
-  destruct (pivot_scan_iterG _ _ _ _ _ _ Hscan) as (xs & Hxs & Hus).
-  set (ld1 := fun i : nat => WMat.bind (rd mem (row_addr h i + wo)) (fun w => WMat.Ok (N.land w (right_bitmask (64 - bo))))) in *.
-  assert (Hload : forall i w, ld1 i = WMat.Ok w ->
-            (forall j, (j < bo)%nat -> N.testbit w (N.of_nat j) = false) /\ (w < 2 ^ 64)%N).
-  { intros i w Hi. unfold ld1 in Hi. destruct (bind_inv _ _ _ Hi) as (w0 & H0 & H1). apply rd_inv in H0. subst w0.
-    apply wok_inj in H1. subst w. split; [|apply land_lt_l; now apply mem_ok_word].
-    intros j Hj. rewrite N.land_spec, testbit_right_bitmask.
-    destruct (Nat.leb_spec (64 - (64 - bo)) j); [lia|]. cbn [andb]. apply andb_false_r. }
-  pose proof (scanG_inv _ (Some bo) r0 _ 0%nat Hload _ _ _ _ Hxs) as HQ. rewrite Hus in HQ.
-  destruct HQ as (Qlo & Qlt & Qc); [repeat split; try reflexivity; intros; apply N.bits_0|]. cbn [fst snd] in Qlo, Qlt, Qc.
-  match goal with |- context [exec zops ?cl LFUEL (Sloop ?cd ?bd ?st) (over ?A0 ?T0) ?M0] =>
-    pose (Ks := fun (s : N * nat) => tdel 28%positive (tset 18%positive (Vint (Z.of_nat (snd s)))
-                 (tset 17%positive (Vint (Z.of_N (fst s))) A0)));
-    pose (Es := fun (k : nat) (s : N * nat) (t : @env Z) =>
-      @pair (@env Z) (@CMini.mem Z)
-        (over (tset 28%positive (Vint (Z.of_nat (r0 + k))) (tset 18%positive (Vint (Z.of_nat (snd s)))
-                 (tset 17%positive (Vint (Z.of_N (fst s))) A0))) t) M0);
-    replace (exec zops cl LFUEL (Sloop cd bd st) (over A0 T0) M0)
-      with (exec zops cl LFUEL (Sloop cd bd st) (fst (Es 0%nat (0%N, 0%nat) (over A0 T0))) (snd (Es 0%nat (0%N, 0%nat) (over A0 T0))))
-      by (unfold Es; cbn [fst snd]; f_equal; symmetry; apply over_sub_eq; sub_solve);
-    destruct (loop_gen2 cl cd bd st (N * nat)%type (@env Z) (N * nat)%type Es (h_nrows h - r0)%nat
-                (scanG ld1 (Some bo) r0)
-                (fun s t => ONormal (over (Ks s) t) M0)
-                (fun s t => ONormal (over (Ks s) t) M0)
-                (fun _ s => (fst s < 2 ^ 64)%N))
-      with (s0 := (0%N, 0%nat)) (t0 := over A0 T0) (x := xs)
-      as (ts & Hloops & _)
-  end.
-  { intros k [d c] ti y Hki HI HG. cbn [fst snd] in HI.
-    destruct (dom_facts h fl mem (r0 + k) wo Hv Hd ltac:(lia) HwoW) as (Hp & Hri & Hra & Hbig & Hii).
-    unfold scanG in HG. cbn [fst] in HG. unfold ld1 in HG. rewrite rd_ok in HG by lia. cbn [WMat.bind] in HG.
-    set (curr := N.land (word_at mem (row_addr h (r0 + k) + wo)) (right_bitmask (64 - bo))) in *.
-    assert (Hcl : (curr < 2 ^ 64)%N) by (apply land_lt_l; now apply mem_ok_word).
-    destruct (lesser_LSB curr d) eqn:EL; [destruct (N.testbit curr (N.of_nat bo)) eqn:ET|]; apply wok_inj in HG; subst y;
-      [|split; [exact Hcl|]|split; [exact HI|]].
-    all: ex_late; loop_unfold Es; cm_run2; rewrite run_mzd_row_const_o by lia; cm_run2.
-    all: match goal with |- context [run zops obs_prog LFUEL _ "m4ri_lesser_LSB" [Vint ?a; Vint ?b] _] =>
-           replace a with (Z.of_N curr) by (symmetry; unfold curr; n2z; wnorm; weq) end.
-    all: rewrite run_lesser_LSB_o by assumption; rewrite EL; cbn [Z.b2z]; cm_run2.
-    1,2: rewrite get_bit_tb by lia; rewrite Z_to_N_of_nat, ET; cbn [Z.b2z]; cm_run2.
-    all: unfold Ks; cbn [fst snd]; ex_close. }
-  { intros [d c] ti HI. ex_late. loop_unfold Es. cm_run2. unfold Ks. cbn [fst snd]. ex_close. }
-  { reflexivity. }
-  { exact Hxs. }
-  { lia. }
-  rewrite Hloops. clear Hloops.
-  assert (Hx' : forall (f : N * nat -> @outcome Z), match xs with inl s' => f s' | inr r' => f r' end = f (data, cand))
-    by (intros f; destruct xs; cbn [unsum] in Hus; subst; reflexivity).
-  rewrite (Hx' (fun s => ONormal (over (Ks s) ts) (mem2 (words mem) 2 TLeaf))). clear Hx'.
-  unfold Ks; cbn [fst snd]. clear Hxs Hus xs Es Ks.
-  cm_run2. rewrite of_N_eqb0. destruct (N.eqb_spec data 0) as [->|Hnz]; cbn [negb] in *.
-  2:{ (* pivot in the first word *)
-      cm_run2.
-      (* here: the bit search `for (l = 0; l < 64 - bit_offset; ++l)` on data >> bit_offset, as in ObsSpecs7 *)
-*)
 
 Print Assumptions mzd_find_pivot_spec_partial.
